@@ -1202,6 +1202,9 @@ fn replay_file(path: &std::path::Path) -> i32 {
     let txt = std::fs::read_to_string(path).unwrap_or_else(|e| vh::machinery_failure(&format!("cannot read replay: {e}")));
     let v: Value = serde_json::from_str(&txt).unwrap_or_else(|e| vh::machinery_failure(&format!("bad replay json: {e}")));
     let r = if v.get("replay").is_some() { &v["replay"] } else { &v };
+    if r.get("concurrent").is_some() {
+        return conc_replay(r);
+    }
     let cfg = Cfg::from_json(&r["cfg"]).unwrap_or_else(|| vh::machinery_failure("replay: missing cfg"));
     let hist: Vec<u8> = r["history"]
         .as_array()
@@ -1221,6 +1224,195 @@ fn replay_file(path: &std::path::Path) -> i32 {
         println!("replay: {} violation(s); first: {}", a.len(), a[0].1.sig);
         1
     }
+}
+
+// ───────────────────────────── concurrent delivery (controlled scheduler) ─────────────────────────────
+//
+// Packets of one media session can reach `IceConn::receive` from more than one socket read loop at
+// once (the RTP and the RTCP socket of a non-multiplexed session, a UDP and a TCP candidate). Two
+// real threads deliver one event each to the same IceConn after a sequential prefix; `vh::csched`
+// enumerates every order in which they can pass the operations of the probation mutex (hook H6).
+// Oracle: linearizability against the real code run sequentially - the final (RTP destination,
+// latched, RTCP destination, RTCP latched) must be what ONE of the two sequential orders gives.
+
+const CONC_PREFIX_LETTERS: [u8; 4] = [2, 0, 8, 6]; // A:N+, A:M+, B:N+, B:M+
+const CONC_T1: [u8; 2] = [2, 0]; // A:N+, A:M+
+const CONC_T2: [u8; 6] = [8, 6, 14, L_RESET, L_SIG, L_SEL]; // B:N+, B:M+, C:N+, reset_latch, signaling retarget, selected-pair update
+
+type Final = (u8, bool, u8, bool);
+
+fn conc_final(o: &Obs) -> Final {
+    (o.remote, o.latched, o.rtcp, o.rtcp_latched)
+}
+
+fn conc_sequential(cfg: Cfg, prefix: &[u8], order: [u8; 2]) -> Final {
+    let mut sys = Sys::new(cfg);
+    for l in prefix.iter().chain(order.iter()) {
+        sys.apply(*l);
+    }
+    conc_final(&sys.observe(false))
+}
+
+/// what one thread does to the connection
+fn conc_body(sys: &Sys, l: u8) -> Box<dyn FnOnce() + Send + 'static> {
+    let conn = sys.conn.clone();
+    match l {
+        L_RESET => Box::new(move || conn.reset_latch()),
+        L_SIG => {
+            let d = ADDRS.with(|a| a.a[AI_D as usize]);
+            Box::new(move || conn.verif_set_remote_addr_from_signaling(d))
+        }
+        L_SEL => {
+            let e = ADDRS.with(|a| a.a[AI_E as usize]);
+            Box::new(move || conn.verif_set_remote_addr_from_selected_pair(e))
+        }
+        _ => {
+            let p = sys.plan(l).expect("packet letter");
+            let bytes = if p.kind == K_R { Bytes::from_static(&RTCP_SR) } else { Bytes::from(build_rtp(p)) };
+            let from = ADDRS.with(|a| a.a[p.src as usize]);
+            Box::new(move || {
+                let mut buf = Vec::new();
+                let mut fut = conn.receive(bytes, from, &mut buf);
+                let mut cx = Context::from_waker(futures::task::noop_waker_ref());
+                if fut.as_mut().poll(&mut cx).is_pending() {
+                    panic!("IceConn::receive returned Pending without a socket");
+                }
+            })
+        }
+    }
+}
+
+fn conc_run(cfg: Cfg, prefix: &[u8], t1: u8, t2: u8, schedule: &[usize]) -> (vh::csched::Execution, Final) {
+    let mut sys = Sys::new(cfg);
+    for l in prefix {
+        sys.apply(*l);
+    }
+    let bodies = vec![conc_body(&sys, t1), conc_body(&sys, t2)];
+    let x = vh::csched::run_schedule(bodies, schedule);
+    let f = conc_final(&sys.observe(false));
+    (x, f)
+}
+
+fn conc_json(cfg: Cfg, prefix: &[u8], t1: u8, t2: u8, schedule: &[usize]) -> Value {
+    json!({"concurrent": {"cfg": cfg.json(), "prefix": hist_names(prefix), "t1": letter_name(t1), "t2": letter_name(t2), "schedule": schedule}})
+}
+
+fn conc_replay(r: &Value) -> i32 {
+    let c = &r["concurrent"];
+    let cfg = Cfg::from_json(&c["cfg"]).unwrap_or_else(|| vh::machinery_failure("replay: missing cfg"));
+    let names = |v: &Value| -> Vec<u8> { v.as_array().map(|a| a.iter().filter_map(|s| letter_from_name(s.as_str().unwrap_or(""))).collect()).unwrap_or_default() };
+    let prefix = names(&c["prefix"]);
+    let t1 = letter_from_name(c["t1"].as_str().unwrap_or("")).unwrap_or_else(|| vh::machinery_failure("replay: bad t1"));
+    let t2 = letter_from_name(c["t2"].as_str().unwrap_or("")).unwrap_or_else(|| vh::machinery_failure("replay: bad t2"));
+    let schedule: Vec<usize> = c["schedule"].as_array().map(|a| a.iter().map(|v| v.as_u64().unwrap_or(0) as usize).collect()).unwrap_or_default();
+    let seq = [conc_sequential(cfg, &prefix, [t1, t2]), conc_sequential(cfg, &prefix, [t2, t1])];
+    let mut bad = false;
+    let mut first = None;
+    for round in 0..2 {
+        let (x, f) = conc_run(cfg, &prefix, t1, t2, &schedule);
+        println!("replay {round}: {}\n  final (rtp destination, latched, rtcp destination, rtcp latched) = {f:?}; sequential orders give {seq:?}", x.schedule().join(" "));
+        bad |= x.deadlock || !seq.contains(&f);
+        match first {
+            None => first = Some(f),
+            Some(g) if g != f => vh::machinery_failure("the same schedule gave different results on replay"),
+            _ => {}
+        }
+    }
+    if bad { 1 } else { 0 }
+}
+
+fn conc_level(rep: &mut vh::Report, thorough: bool) {
+    let probs: &[u8] = if thorough { &[0, 1, 2, 3, 4, 6] } else { &[0, 2, 3] };
+    let mut prefixes: Vec<Vec<u8>> = vec![vec![]];
+    for a in CONC_PREFIX_LETTERS {
+        prefixes.push(vec![a]);
+        for b in CONC_PREFIX_LETTERS {
+            prefixes.push(vec![a, b]);
+            if thorough {
+                for c in CONC_PREFIX_LETTERS {
+                    prefixes.push(vec![a, b, c]);
+                }
+            }
+        }
+    }
+    let mut cases: Vec<(Cfg, Vec<u8>, u8, u8)> = vec![];
+    for &prob in probs {
+        for ssrc_known in [true, false] {
+            let cfg = Cfg { prob, ssrc_known, remote_set: true, rtcp_set: false, seq_base: SEQ_BASE, wire: 0 };
+            for p in &prefixes {
+                for t1 in CONC_T1 {
+                    for t2 in CONC_T2 {
+                        cases.push((cfg, p.clone(), t1, t2));
+                    }
+                }
+            }
+        }
+    }
+    struct R {
+        schedules: u64,
+        distinct: usize,
+        viol: Option<(String, String, Value)>,
+        deadlock: bool,
+    }
+    let results: Vec<R> = cases
+        .par_iter()
+        .map(|(cfg, prefix, t1, t2)| {
+            let seq = [conc_sequential(*cfg, prefix, [*t1, *t2]), conc_sequential(*cfg, prefix, [*t2, *t1])];
+            let mut finals: HashSet<Final> = HashSet::new();
+            let mut viol = None;
+            let mut deadlock = false;
+            let last = std::cell::Cell::new(None);
+            let st = vh::csched::explore(
+                None,
+                |schedule| {
+                    let (x, f) = conc_run(*cfg, prefix, *t1, *t2, schedule);
+                    last.set(Some(f));
+                    x
+                },
+                |x| {
+                    let f = last.take().expect("final");
+                    finals.insert(f);
+                    if x.deadlock {
+                        deadlock = true;
+                        viol = Some((format!("concurrent;deadlock;prob={};t1={};t2={}", cfg.prob, letter_name(*t1), letter_name(*t2)), format!("schedule {}", x.schedule().join(" ")), conc_json(*cfg, prefix, *t1, *t2, &x.choices())));
+                        return false;
+                    }
+                    if !seq.contains(&f) && viol.is_none() {
+                        let name = |i: u8| addr_name(i);
+                        viol = Some((
+                            format!("concurrent;not-linearizable;prob={};ssrc_known={};t1={};t2={};rtp-destination={};latched={}", cfg.prob, cfg.ssrc_known, letter_name(*t1), letter_name(*t2), name(f.0), f.1),
+                            format!(
+                                "after prefix {:?}, thread 1 delivers {} while thread 2 does {}: final RTP destination {} (latched {}), RTCP destination {} - but {} then {} gives {:?} and {} then {} gives {:?}; schedule: {}",
+                                hist_names(prefix), letter_name(*t1), letter_name(*t2), name(f.0), f.1, name(f.2), letter_name(*t1), letter_name(*t2), seq[0], letter_name(*t2), letter_name(*t1), seq[1], x.schedule().join(" ")
+                            ),
+                            conc_json(*cfg, prefix, *t1, *t2, &x.choices()),
+                        ));
+                    }
+                    true
+                },
+            );
+            R { schedules: st.schedules, distinct: finals.len(), viol, deadlock }
+        })
+        .collect();
+    let schedules: u64 = results.iter().map(|r| r.schedules).sum();
+    let racy = results.iter().filter(|r| r.distinct >= 2).count();
+    let mut sigs: BTreeMap<String, (String, Value, u64)> = BTreeMap::new();
+    for r in &results {
+        if let Some((sig, detail, replay)) = &r.viol {
+            sigs.entry(sig.clone()).or_insert((detail.clone(), replay.clone(), 0)).2 += 1;
+        }
+        let _ = r.deadlock;
+    }
+    for (sig, (detail, replay, n)) in &sigs {
+        rep.violation(vh::Violation { signature: sig.clone(), detail: format!("[{n} cases] {detail}"), replay: replay.clone() });
+    }
+    if sigs.is_empty() && racy == 0 {
+        vh::machinery_failure("vacuous concurrent part: no case had two distinct outcomes over its schedules (nothing raced)");
+    }
+    rep.set("concurrent_cases", cases.len() as u64);
+    rep.set("concurrent_schedules", schedules);
+    rep.set("concurrent_cases_with_more_than_one_outcome", racy as u64);
+    rep.set("concurrent_rule", "two threads deliver one event each (thread 1: an RTP packet of source A; thread 2: an RTP packet of source B / C, reset_latch, a signaling retarget or a selected-pair update) after every sequential prefix of length <= 2 (thorough 3) over {A:N+, A:M+, B:N+, B:M+}; every order of passing the probation mutex's lock / unlock points; the final (RTP destination, latched, RTCP destination, RTCP latched) must equal what one of the two sequential orders gives on a fresh real IceConn");
 }
 
 // ───────────────────────────── main ─────────────────────────────
@@ -1283,6 +1475,8 @@ fn main() {
     }
 
     // evidence
+    conc_level(&mut rep, cli.tier == vh::Tier::Thorough);
+    let states = states + rep.get("concurrent_schedules");
     rep.set("states", states);
     rep.set("transitions", total.steps);
     rep.set("traces_validated_against_impl", total.histories);
